@@ -1,4 +1,481 @@
 import MCHap.Model.FindSnvs
+import MCHap.Proofs.Reads
+import Mathlib.Data.List.Basic
+import Mathlib.Data.List.Perm.Basic
+import Mathlib.Algebra.Order.Field.Rat
 import Mathlib.Tactic
+
+/-!
+# C19 — find-snvs: depths and thresholds
+
+The property has two halves.
+
+**Depths.**  The statement wants `depths = base calls among the reads passing the configured filters`
+(`specDepth` below).  The code forwards the configured filters to `pysam.AlignmentFile.pileup` under keyword names
+pysam does not know, so they are ignored and the engine's defaults apply (model: `bamRegionDepths`).  Hence
+* `depths_config_independent` — the model's depths do not depend on the configuration at all (this *is* the defect);
+* `depths_monotone_in_filters` — monotone in every option, but only in the trivial sense of being constant;
+* `depths_eq_spec_partial` — the depths equal the specified ones exactly on the region where the engine's fixed read
+  filter coincides with the configured one, every base quality is ≥ 13 and no two buffered records share a read name;
+* `depths_ne_spec_witness` — machine-checked inputs outside that region on which they differ (one per cause);
+* `specDepth_monotone_in_filters` / `specDepth_filter_effect` — what "changes the depths accordingly" means for the
+  specification: turning a keep flag on / lowering the MAPQ threshold adds exactly the calls of the newly admitted reads.
+
+**Thresholds.**  `keepAllele_iff`, `listed_iff_thresholds`, `emitted_iff_two`, `ref_first_masked_iff`, `alts_sorted`,
+`alts_nodup_complete` hold at full strength for `siteRecord` (the model of `write_vcf_block`).  Note that the code's
+population frequency is `np.mean` over *all* samples (NaN as soon as one sample has no depth), which `keepAllele_iff`
+makes explicit via `meanFreq`.
+-/
+set_option linter.unusedSimpArgs false
+set_option linter.unusedVariables false
+
 namespace MCHap.C19
+open MCHap
+
+/-! ## depths -/
+
+/-- the configured read filter of the property statement -/
+def cfgPasses (cfg : FilterCfg) (a : Aln) : Bool :=
+  !a.isUnmapped && decide (cfg.minQ ≤ a.mapq) && !(a.isDuplicate && cfg.skipDup) && !(a.isQcfail && cfg.skipQc)
+    && !(a.isSupplementary && cfg.skipSupp)
+
+/-- the nucleotide a record calls at reference position `p` (no base-quality filter) -/
+def specBase (a : Aln) (p : Nat) : Option Nat :=
+  (a.samPairs.find? (fun qr => qr.2 == p)).bind (fun qr => (a.seq[qr.1]?).bind baseIndex)
+
+/-- **the specification**: counts of A, C, G, T among the records of `contig` that pass the configured filters -/
+def specDepth (cfg : FilterCfg) (reads : List Aln) (contig : String) (p : Nat) : List Nat :=
+  countColumn (fun a => specBase a p) (reads.filter (fun a => a.contig == contig && cfgPasses cfg a))
+
+/-- `cfg'` admits at least the reads `cfg` admits -/
+def WeakerCfg (cfg cfg' : FilterCfg) : Prop :=
+  cfg'.minQ ≤ cfg.minQ ∧ (cfg'.skipDup = true → cfg.skipDup = true) ∧ (cfg'.skipQc = true → cfg.skipQc = true) ∧
+    (cfg'.skipSupp = true → cfg.skipSupp = true)
+
+/-- the candidate defect F7 as a theorem of the model: the configured filters have no effect whatsoever -/
+theorem depths_config_independent (cfg cfg' : FilterCfg) (bams : List (List Aln)) (contig : String) (start stop : Nat) :
+    bamRegionDepths cfg bams contig start stop = bamRegionDepths cfg' bams contig start stop := rfl
+
+/-- depths are monotone in each filter option — satisfied only because they are constant in them -/
+theorem depths_monotone_in_filters (cfg cfg' : FilterCfg) (_h : WeakerCfg cfg cfg') (bams : List (List Aln))
+    (contig : String) (start stop : Nat) (i j k : Nat) :
+    (((bamRegionDepths cfg bams contig start stop).getD i []).getD j []).getD k 0 ≤
+      (((bamRegionDepths cfg' bams contig start stop).getD i []).getD j []).getD k 0 := by
+  rw [depths_config_independent cfg cfg']
+
+theorem cfgPasses_mono {cfg cfg' : FilterCfg} (h : WeakerCfg cfg cfg') (a : Aln) (hp : cfgPasses cfg a = true) :
+    cfgPasses cfg' a = true := by
+  obtain ⟨h1, h2, h3, h4⟩ := h
+  unfold cfgPasses at hp ⊢
+  simp only [Bool.and_eq_true, Bool.not_eq_true', decide_eq_true_eq, Bool.and_eq_false_imp] at hp ⊢
+  obtain ⟨⟨⟨⟨p1, p2⟩, p3⟩, p4⟩, p5⟩ := hp
+  refine ⟨⟨⟨⟨p1, by omega⟩, ?_⟩, ?_⟩, ?_⟩
+  · intro ha; have := p3 ha; cases hx : cfg'.skipDup <;> simp_all
+  · intro ha; have := p4 ha; cases hx : cfg'.skipQc <;> simp_all
+  · intro ha; have := p5 ha; cases hx : cfg'.skipSupp <;> simp_all
+
+theorem countP_filter_split {α} (p f f' : α → Bool) (l : List α) (hff : ∀ a ∈ l, f a = true → f' a = true) :
+    (l.filter f').countP p = (l.filter f).countP p + (l.filter (fun a => f' a && !f a)).countP p := by
+  induction l with
+  | nil => rfl
+  | cons a t ih =>
+    have iht := ih (fun x hx => hff x (List.mem_cons_of_mem _ hx))
+    have ha := hff a List.mem_cons_self
+    cases hf : f a <;> cases hf' : f' a <;> cases hpa : p a <;>
+      simp [List.filter_cons, List.countP_cons, hf, hf', hpa, iht] <;> first | omega | (simp [hf] at ha; simp [ha] at hf')
+
+/-- **what an option changes** (specification): admitting more reads adds exactly the calls of the newly admitted ones -/
+theorem specDepth_filter_effect {cfg cfg' : FilterCfg} (h : WeakerCfg cfg cfg') (reads : List Aln) (contig : String)
+    (p k : Nat) (hk : k < 4) :
+    (specDepth cfg' reads contig p).getD k 0 =
+      (specDepth cfg reads contig p).getD k 0 +
+        (reads.filter (fun a => (a.contig == contig && cfgPasses cfg' a) && !(a.contig == contig && cfgPasses cfg a))).countP
+          (fun a => specBase a p == some k) := by
+  unfold specDepth countColumn
+  simp only [List.getD_eq_getElem?_getD, List.getElem?_map, List.getElem?_range hk, Option.map_some, Option.getD_some]
+  apply countP_filter_split
+  intro a _ ha
+  simp only [Bool.and_eq_true] at ha ⊢
+  exact ⟨ha.1, cfgPasses_mono h a ha.2⟩
+
+/-- the specified depths are monotone in every filter option -/
+theorem specDepth_monotone_in_filters {cfg cfg' : FilterCfg} (h : WeakerCfg cfg cfg') (reads : List Aln)
+    (contig : String) (p k : Nat) (hk : k < 4) :
+    (specDepth cfg reads contig p).getD k 0 ≤ (specDepth cfg' reads contig p).getD k 0 := by
+  rw [specDepth_filter_effect h reads contig p k hk]; omega
+
+/-! ### where the engine agrees with the specification -/
+
+theorem alignedPairsFrom_bounds (pq : Bool) : ∀ (cig : List (Nat × CigarOp)) (q r : Nat) (x : Nat × Nat),
+    x ∈ alignedPairsFrom pq cig q r → r ≤ x.2 ∧ x.2 < r + cigarRefLen cig := by
+  intro cig
+  induction cig with
+  | nil => intro q r x hx; simp [alignedPairsFrom] at hx
+  | cons c t ih =>
+    intro q r x hx
+    obtain ⟨n, op⟩ := c
+    cases op <;> simp only [alignedPairsFrom, cigarRefLen, List.mem_append, List.mem_map, List.mem_range] at hx ⊢
+    all_goals first
+      | (rcases hx with ⟨i, hi, rfl⟩ | hx
+         · simp only; omega
+         · have := ih _ _ _ hx; omega)
+      | (have := ih _ _ _ hx; omega)
+
+theorem lookup_none_of_not_mem {β} (d : List (String × β)) (k : String) (h : k ∉ d.map Prod.fst) : d.lookup k = none := by
+  cases hl : d.lookup k with
+  | none => rfl
+  | some v => exact absurd ((lookup_isSome_iff_mem_keys d k).mp (by simp [hl])) h
+
+theorem foldl_pushRead_done : ∀ (l : List Aln) (st : OverlapState),
+    (∀ e ∈ st.pending, e.1 ∈ st.done.map Aln.qname) → (∀ b ∈ l, b.qname ∉ st.done.map Aln.qname) →
+      (l.map Aln.qname).Nodup → (l.foldl pushRead st).done = st.done ++ l := by
+  intro l
+  induction l with
+  | nil => intro st _ _ _; simp
+  | cons b t ih =>
+    intro st hpend hnew hnd
+    rw [List.foldl_cons]
+    have hb : b.qname ∉ st.done.map Aln.qname := hnew b List.mem_cons_self
+    have hlook : st.pending.lookup b.qname = none := by
+      apply lookup_none_of_not_mem
+      intro hmem
+      obtain ⟨e, he, hee⟩ := List.mem_map.mp hmem
+      exact hb (hee ▸ hpend e he)
+    simp only [List.map_cons, List.nodup_cons] at hnd
+    have hnew' : ∀ st' : OverlapState, st'.done = st.done ++ [b] →
+        ∀ b' ∈ t, b'.qname ∉ st'.done.map Aln.qname := by
+      intro st' hst b' hb' hmem
+      rw [hst, List.map_append, List.mem_append] at hmem
+      rcases hmem with hmem | hmem
+      · exact hnew b' (List.mem_cons_of_mem _ hb') hmem
+      · simp only [List.map_cons, List.map_nil, List.mem_singleton] at hmem
+        exact hnd.1 (hmem ▸ List.mem_map_of_mem hb')
+    have happ : st.done ++ [b] ++ t = st.done ++ b :: t := by simp
+    have key : ∃ st', pushRead st b = st' ∧ st'.done = st.done ++ [b] ∧
+        (∀ e ∈ st'.pending, e.1 ∈ st'.done.map Aln.qname) := by
+      unfold pushRead
+      by_cases hoc : overlapCandidate b = true
+      · simp only [hoc, Bool.not_true, Bool.false_eq_true, if_false, hlook]
+        by_cases haw : awaitsMate b = true
+        · simp only [haw, if_true]
+          refine ⟨_, rfl, rfl, ?_⟩
+          intro e he
+          simp only [List.mem_cons] at he
+          simp only [List.map_append, List.mem_append]
+          rcases he with rfl | he
+          · right; simp
+          · left; exact hpend e he
+        · have haw' : awaitsMate b = false := by simpa using haw
+          simp only [haw', Bool.false_eq_true, if_false]
+          refine ⟨_, rfl, rfl, ?_⟩
+          intro e he
+          simp only [List.map_append, List.mem_append]
+          left; exact hpend e he
+      · have hoc' : overlapCandidate b = false := by simpa using hoc
+        simp only [hoc', Bool.not_false, if_true]
+        refine ⟨_, rfl, rfl, ?_⟩
+        intro e he
+        simp only [List.map_append, List.mem_append]
+        left; exact hpend e he
+    obtain ⟨st', hst, hd, hp⟩ := key
+    rw [hst, ih st' hp (hnew' st' hd) hnd.2, hd, happ]
+
+/-- without two buffered records sharing a read name the overlap machinery is inert -/
+theorem engineReads_of_nodup (contig : String) (start stop : Nat) (reads : List Aln)
+    (h : ((reads.filter (fun a => regionFetched contig start stop a && enginePasses a)).map Aln.qname).Nodup) :
+    engineReads contig start stop reads = reads.filter (fun a => regionFetched contig start stop a && enginePasses a) := by
+  unfold engineReads
+  rw [foldl_pushRead_done _ {} (by simp) (by simp) h]
+  simp
+
+theorem regionFetched_of_column {contig : String} {start stop p : Nat} (hp : start ≤ p ∧ p < stop) {a : Aln}
+    (hc : a.contig = contig) {qr : Nat × Nat} (hf : a.samPairs.find? (fun qr => qr.2 == p) = some qr) :
+    regionFetched contig start stop a = true := by
+  have hmem := List.mem_of_find?_eq_some hf
+  have hqr : qr.2 = p := by simpa using List.find?_some hf
+  obtain ⟨h1, h2⟩ := alignedPairsFrom_bounds false a.cigar 0 a.pos qr hmem
+  unfold regionFetched Aln.refEnd
+  simp only [hc, beq_self_eq_true, Bool.true_and, Bool.and_eq_true, decide_eq_true_eq]
+  constructor
+  · omega
+  · split_ifs with h0
+    · omega
+    · omega
+
+/-- **partial correctness of the depths**: for every position of the region, the model's depths are the specified ones
+provided (i) on the records the region fetches the engine's fixed read filter decides like the configured one,
+(ii) every base quality is at least 13, (iii) no two buffered records share a read name -/
+theorem depths_eq_spec_partial (cfg : FilterCfg) (bams : List (List Aln)) (contig : String) (start stop i : Nat)
+    (hi : i < stop - start)
+    (hfilt : ∀ reads ∈ bams, ∀ a ∈ reads, regionFetched contig start stop a = true → enginePasses a = cfgPasses cfg a)
+    (hqual : ∀ reads ∈ bams, ∀ a ∈ reads, a.qualList.length = a.seq.length ∧ ∀ q ∈ a.qualList, 13 ≤ q)
+    (hname : ∀ reads ∈ bams,
+      ((reads.filter (fun a => regionFetched contig start stop a && enginePasses a)).map Aln.qname).Nodup) :
+    (bamRegionDepths cfg bams contig start stop)[i]? =
+      some (bams.map (fun reads => specDepth cfg reads contig (start + i))) := by
+  unfold bamRegionDepths
+  rw [List.getElem?_map, List.getElem?_range hi]
+  simp only [Option.map_some, Option.some.injEq]
+  apply List.map_congr_left
+  intro reads hr
+  rw [engineReads_of_nodup _ _ _ _ (hname reads hr)]
+  unfold specDepth countColumn
+  apply List.map_congr_left
+  intro k _
+  rw [List.countP_filter, List.countP_filter]
+  apply List.countP_congr
+  intro a ha
+  have hp : start ≤ start + i ∧ start + i < stop := by omega
+  by_cases hc : a.contig = contig
+  · cases hf : a.samPairs.find? (fun qr => qr.2 == start + i) with
+    | none => simp [columnBase, specBase, hf]
+    | some qr =>
+      have hreg := regionFetched_of_column hp hc hf
+      have hfe := hfilt reads hr a ha hreg
+      obtain ⟨hlen, hq⟩ := hqual reads hr a ha
+      have hbase : columnBase 13 a (start + i) = specBase a (start + i) := by
+        unfold columnBase specBase
+        simp only [hf, Option.bind_some]
+        by_cases hlt : qr.1 < a.seq.length
+        · have hlt' : qr.1 < a.qualList.length := by omega
+          have hge : a.qualList[qr.1]? = some a.qualList[qr.1] := List.getElem?_eq_getElem hlt'
+          have h13 : 13 ≤ a.qualList[qr.1] := hq _ (List.getElem_mem hlt')
+          simp only [List.getD_eq_getElem?_getD, hge, Option.getD_some, Nat.not_lt.mpr h13, if_false]
+        · have : a.seq[qr.1]? = none := by simp [Nat.le_of_not_lt hlt]
+          simp [this]
+      simp [hbase, hreg, hfe, hc]
+  · have h1 : regionFetched contig start stop a = false := by
+      unfold regionFetched
+      have : (a.contig == contig) = false := by simpa using hc
+      simp [this]
+    have h2 : (a.contig == contig) = false := by simpa using hc
+    simp [h1, h2]
+
+/-- **the engine differs from the specification** (one witness per cause; `AC` reference, region `[0, 1)`):
+MAPQ below the configured threshold is still counted; a kept duplicate / QC-fail record is still dropped; a
+supplementary record is counted although it is to be skipped; a base of quality 12, an orphan mate and a secondary
+record are dropped although no configured filter excludes them -/
+theorem depths_ne_spec_witness :
+    let rd (flag mapq q : Nat) : Aln :=
+      { qname := "r", contig := "c", flag := flag, mapq := mapq, pos := 0, cigar := [(2, .M)], seq := ['A', 'C'],
+        quals := some [q, q], rg := some "g", refBases := some ['A', 'C'] }
+    -- mapq-ignored
+    (bamRegionDepths {} [[rd 0 0 30]] "c" 0 1 = [[[1, 0, 0, 0]]] ∧ specDepth {} [rd 0 0 30] "c" 0 = [0, 0, 0, 0]) ∧
+    -- keep-duplicates-ignored
+    (bamRegionDepths { skipDup := false } [[rd 0x400 60 30]] "c" 0 1 = [[[0, 0, 0, 0]]] ∧
+      specDepth { skipDup := false } [rd 0x400 60 30] "c" 0 = [1, 0, 0, 0]) ∧
+    -- keep-qcfail-ignored
+    (bamRegionDepths { skipQc := false } [[rd 0x200 60 30]] "c" 0 1 = [[[0, 0, 0, 0]]] ∧
+      specDepth { skipQc := false } [rd 0x200 60 30] "c" 0 = [1, 0, 0, 0]) ∧
+    -- supplementary-not-dropped
+    (bamRegionDepths {} [[rd 0x800 60 30]] "c" 0 1 = [[[1, 0, 0, 0]]] ∧ specDepth {} [rd 0x800 60 30] "c" 0 = [0, 0, 0, 0]) ∧
+    -- baseq13-dropped
+    (bamRegionDepths {} [[rd 0 60 12]] "c" 0 1 = [[[0, 0, 0, 0]]] ∧ specDepth {} [rd 0 60 12] "c" 0 = [1, 0, 0, 0]) ∧
+    -- orphans-dropped
+    (bamRegionDepths {} [[rd 0x41 60 30]] "c" 0 1 = [[[0, 0, 0, 0]]] ∧ specDepth {} [rd 0x41 60 30] "c" 0 = [1, 0, 0, 0]) ∧
+    -- secondary-dropped
+    (bamRegionDepths {} [[rd 0x100 60 30]] "c" 0 1 = [[[0, 0, 0, 0]]] ∧ specDepth {} [rd 0x100 60 30] "c" 0 = [1, 0, 0, 0]) := by
+  decide
+
+/-! ## thresholds -/
+
+/-- the `keep` mask, spelled out: enough individuals meet `--ind-maf` and `--ind-mad`, and (when `--maf > 0`) the mean
+sample frequency over *all* samples is defined and reaches `--maf`, and (when `--mad > 0`) the population depth reaches
+`--mad` -/
+theorem keepAllele_iff (t : Thresh) (ds : List (List Nat)) (a : Nat) :
+    keepAllele t ds a = true ↔
+      t.minInd ≤ (ds.countP (fun d => indOk t d a) : Int) ∧
+        (0 < t.maf → ∃ m, meanFreq ds a = some m ∧ t.maf ≤ m) ∧
+        (0 < t.mad → t.mad ≤ (popDepth ds a : Int)) := by
+  unfold keepAllele
+  simp only [Bool.and_eq_true, decide_eq_true_eq]
+  constructor
+  · rintro ⟨⟨h1, h2⟩, h3⟩
+    refine ⟨h1, ?_, ?_⟩
+    · intro hm
+      simp only [hm, if_true] at h2
+      cases hmf : meanFreq ds a with
+      | none => simp [hmf] at h2
+      | some m => exact ⟨m, rfl, by simpa [hmf] using h2⟩
+    · intro hm; simpa [hm] using h3
+  · rintro ⟨h1, h2, h3⟩
+    refine ⟨⟨h1, ?_⟩, ?_⟩
+    · split_ifs with hm
+      · obtain ⟨m, hmf, hle⟩ := h2 hm
+        simp [hmf, hle]
+      · rfl
+    · split_ifs with hm
+      · simpa using h3 hm
+      · rfl
+
+/-- an individual meets the thresholds iff it has depth, its frequency reaches `--ind-maf` and its depth `--ind-mad` -/
+theorem indOk_iff (t : Thresh) (d : List Nat) (a : Nat) :
+    indOk t d a = true ↔
+      d.sum ≠ 0 ∧ t.indMaf ≤ (d.getD a 0 : Rat) / (d.sum : Rat) ∧ t.indMad ≤ (d.getD a 0 : Int) := by
+  unfold indOk alleleFreq
+  by_cases h : d.sum = 0
+  · simp [h]
+  · simp [h]
+
+theorem argsortDesc_perm (f : Nat → Option Rat) : (argsortDesc f).Perm (List.range 4) := by
+  unfold argsortDesc
+  exact (List.reverse_perm _).trans (List.mergeSort_perm _ _)
+
+theorem mem_argsortDesc (f : Nat → Option Rat) (a : Nat) : a ∈ argsortDesc f ↔ a < 4 := by
+  rw [(argsortDesc_perm f).mem_iff, List.mem_range]
+
+theorem nodup_argsortDesc (f : Nat → Option Rat) : (argsortDesc f).Nodup :=
+  (argsortDesc_perm f).nodup_iff.mpr List.nodup_range
+
+theorem leKey_trans (x y z : Option Rat) (h1 : leKey x y = true) (h2 : leKey y z = true) : leKey x z = true := by
+  cases x <;> cases y <;> cases z <;> simp_all [leKey]
+  exact le_trans h1 h2
+
+theorem leKey_total (x y : Option Rat) : (leKey x y || leKey y x) = true := by
+  cases x <;> cases y <;> simp [leKey]
+  exact le_total _ _
+
+theorem sublist_pair_antisymm {α} {l : List α} (hnd : l.Nodup) {x y : α} (h1 : [x, y].Sublist l) (h2 : [y, x].Sublist l) :
+    False := by
+  induction l with
+  | nil => simp at h1
+  | cons h t ih =>
+    have hnd' := List.nodup_cons.mp hnd
+    rcases List.sublist_cons_iff.mp h1 with h1 | ⟨r, hr, h1⟩
+    · rcases List.sublist_cons_iff.mp h2 with h2 | ⟨r', hr', h2⟩
+      · exact ih hnd'.2 h1 h2
+      · -- h = y, x ∈ t; but [x, y] <+ t gives y ∈ t
+        have hy : y = h := by simp at hr'; exact hr'.1
+        exact hnd'.1 (hy ▸ h1.subset (by simp))
+    · have hx : x = h := by simp at hr; exact hr.1
+      rcases List.sublist_cons_iff.mp h2 with h2 | ⟨r', hr', h2⟩
+      · exact hnd'.1 (hx ▸ h2.subset (by simp))
+      · have hy : y = h := by simp at hr'; exact hr'.1
+        have hr2 : r = [y] := by simp at hr; exact hr.2.symm
+        subst hr2
+        exact hnd'.1 (hy ▸ h1.subset (by simp))
+
+/-- the order `np.argsort(kind="stable")[::-1]` produces: non-increasing keys, and among equal keys the higher
+nucleotide index first -/
+theorem argsortDesc_pairwise (f : Nat → Option Rat) :
+    (argsortDesc f).Pairwise (fun a b => leKey (f b) (f a) = true ∧ (leKey (f a) (f b) = true → b < a)) := by
+  unfold argsortDesc
+  rw [List.pairwise_reverse]
+  set le : Nat → Nat → Bool := fun a b => leKey (f a) (f b) with hle
+  have htr : ∀ a b c : Nat, le a b = true → le b c = true → le a c = true :=
+    fun a b c => leKey_trans _ _ _
+  have htot : ∀ a b : Nat, (le a b || le b a) = true := fun a b => leKey_total _ _
+  have hsorted := List.pairwise_mergeSort htr htot (List.range 4)
+  have hnd : ((List.range 4).mergeSort le).Nodup := (List.mergeSort_perm _ _).nodup_iff.mpr List.nodup_range
+  rw [List.pairwise_iff_forall_sublist]
+  intro x y hxy
+  have hsxy : le x y = true := (List.pairwise_iff_forall_sublist.mp hsorted) hxy
+  refine ⟨hsxy, ?_⟩
+  intro hyx
+  -- x precedes y in the stable ascending sort and the keys tie: x < y in the input order
+  by_contra hlt
+  have hne : x ≠ y := by
+    rintro rfl
+    have : [x, x].Sublist ((List.range 4).mergeSort le) := hxy
+    exact (List.nodup_cons.mp (hnd.sublist this)).1 (by simp)
+  have hyx' : y < x := by omega
+  have hx4 : x < 4 := by
+    have : x ∈ (List.range 4).mergeSort le := hxy.subset (by simp)
+    simpa using (List.mergeSort_perm _ _).mem_iff.mp this
+  have hin : [y, x].Sublist (List.range 4) := by
+    have hyr : y < 4 := by omega
+    interval_cases x <;> interval_cases y <;> simp_all <;> decide
+  have hout : [y, x].Sublist ((List.range 4).mergeSort le) :=
+    List.sublist_mergeSort htr htot (by simp [hle, hyx]) hin
+  exact sublist_pair_antisymm hnd hxy hout
+
+/-- unfolding of `siteRecord` for an emitted position -/
+theorem siteRecord_some {t : Thresh} {c : Char} {ds : List (List Nat)} {r : SiteRecord} (h : siteRecord t c ds = some r) :
+    ∃ ref, baseIndex c = some ref ∧ 2 ≤ (List.range 4).countP (keepAllele t ds) ∧ r.ref = ref ∧
+      r.alts = ((argsortDesc (sortKey t ds)).filter (fun a => a != ref)).filter (keepAllele t ds) ∧
+      r.refMasked = !keepAllele t ds ref := by
+  unfold siteRecord at h
+  cases hb : baseIndex c with
+  | none => simp [hb] at h
+  | some ref =>
+    simp only [hb] at h
+    split_ifs at h with hc
+    simp only [Option.some.injEq] at h
+    subst h
+    refine ⟨ref, rfl, by omega, rfl, ?_, rfl⟩
+    simp only [alleleOrder, List.filter_cons, beq_self_eq_true, Bool.true_or, if_true, List.tail_cons]
+    rw [List.filter_filter, List.filter_filter]
+    apply List.filter_congr
+    intro a _
+    by_cases ha : a = ref
+    · subst ha; simp
+    · have : (a == ref) = false := by simpa using ha
+      simp [this]
+
+/-- an allele is listed as ALT iff it is a nucleotide other than the reference that meets the thresholds; REF is
+always listed -/
+theorem listed_iff_thresholds {t : Thresh} {c : Char} {ds : List (List Nat)} {r : SiteRecord}
+    (h : siteRecord t c ds = some r) (a : Nat) :
+    a ∈ r.alts ↔ a < 4 ∧ a ≠ r.ref ∧ keepAllele t ds a = true := by
+  obtain ⟨ref, _, _, hr, halts, _⟩ := siteRecord_some h
+  rw [halts, hr]
+  simp only [List.mem_filter, mem_argsortDesc, bne_iff_ne, ne_eq]
+  tauto
+
+/-- a record is emitted iff the reference base is A/C/G/T and at least two alleles meet the thresholds -/
+theorem emitted_iff_two (t : Thresh) (c : Char) (ds : List (List Nat)) :
+    (siteRecord t c ds).isSome = true ↔
+      ∃ ref, baseIndex c = some ref ∧ 2 ≤ (List.range 4).countP (keepAllele t ds) := by
+  constructor
+  · intro h
+    obtain ⟨r, hr⟩ := Option.isSome_iff_exists.mp h
+    obtain ⟨ref, h1, h2, _⟩ := siteRecord_some hr
+    exact ⟨ref, h1, h2⟩
+  · rintro ⟨ref, h1, h2⟩
+    unfold siteRecord
+    simp only [h1]
+    have : ¬ (List.range 4).countP (keepAllele t ds) ≤ 1 := by omega
+    simp [this]
+
+/-- REF is the reference base, it is never among the ALTs, and REFMASKED is set iff it failed the thresholds -/
+theorem ref_first_masked_iff {t : Thresh} {c : Char} {ds : List (List Nat)} {r : SiteRecord}
+    (h : siteRecord t c ds = some r) :
+    baseIndex c = some r.ref ∧ r.ref ∉ r.alts ∧ (r.refMasked = true ↔ keepAllele t ds r.ref = false) := by
+  obtain ⟨ref, h1, _, hr, halts, hm⟩ := siteRecord_some h
+  subst hr
+  refine ⟨h1, ?_, ?_⟩
+  · rw [halts]; simp [List.mem_filter]
+  · rw [hm]; simp
+
+/-- ALT alleles are in order of non-increasing mean sample frequency; ties are broken towards the higher nucleotide
+index (T before G before C before A), as `argsort(kind="stable")[::-1]` does -/
+theorem alts_sorted {t : Thresh} {c : Char} {ds : List (List Nat)} {r : SiteRecord} (h : siteRecord t c ds = some r) :
+    r.alts.Pairwise (fun a b => leKey (sortKey t ds b) (sortKey t ds a) = true ∧
+      (leKey (sortKey t ds a) (sortKey t ds b) = true → b < a)) := by
+  obtain ⟨ref, _, _, _, halts, _⟩ := siteRecord_some h
+  rw [halts]
+  exact ((argsortDesc_pairwise _).filter _).filter _
+
+/-- for a listed allele the sort key is its mean frequency over the samples with depth (the reported ADMF) -/
+theorem sortKey_of_keep {t : Thresh} {ds : List (List Nat)} {a : Nat} (h : keepAllele t ds a = true) :
+    sortKey t ds a = nanMeanFreq ds a := by
+  simp [sortKey, h]
+
+/-- no ALT is listed twice and every ALT is a nucleotide -/
+theorem alts_nodup_complete {t : Thresh} {c : Char} {ds : List (List Nat)} {r : SiteRecord}
+    (h : siteRecord t c ds = some r) : r.alts.Nodup ∧ ∀ a ∈ r.alts, a < 4 := by
+  obtain ⟨ref, _, _, _, halts, _⟩ := siteRecord_some h
+  rw [halts]
+  refine ⟨((nodup_argsortDesc _).filter _).filter _, ?_⟩
+  intro a ha
+  exact (mem_argsortDesc _ a).mp (List.mem_filter.mp (List.mem_filter.mp ha).1).1
+
+/-- non-vacuity: two samples, `--ind-mad 3`: the reference `A` (depth 1 + 1) fails while `C` and `T` pass, so a record
+is emitted with REFMASKED -/
+example : (siteRecord {} 'A' [[1, 4, 0, 4], [1, 4, 0, 4]]).map (fun r => (r.ref, r.refMasked)) = some (0, true) := by
+  decide +kernel
+
+/-- non-vacuity of the emission rule: with a single allele above the thresholds nothing is emitted -/
+example : (siteRecord {} 'A' [[9, 1, 0, 0]]).isSome = false := by decide +kernel
+
 end MCHap.C19
